@@ -413,6 +413,16 @@ func (e *Engine) applyErrOperand(v ssa.Value, b *ssa.BasicBlock, g *Graph, state
 				return e.mulCombine(call, states, b)
 			}
 		}
+		// `return lib.F(...)`: the function succeeds exactly when that call's
+		// error is nil — the success alternative carries that as a gate
+		if cal := call.Common().StaticCallee(); cal != nil && !e.P.InRepo(cal) && isErrorType(v.Type()) {
+			var out []state
+			for _, st := range states {
+				t := e.mk(OpBin, "==", nil, e.Eval(v, st.ctx), C("nil"))
+				out = append(out, state{append(append([]*Gate{}, st.gates...), &Gate{Pred: t, Pos: v.Pos(), Fn: g.Fn, Ctx: st.ctx}), st.ctx})
+			}
+			return out
+		}
 	}
 	return states
 }
